@@ -195,6 +195,7 @@ def run(model, col, tier):
     pipe.check_validator(col, "R12.4", "ValidateVariableNames")
     pipe.makepass_process(col, "R12.4")
     pipe.check_gating(col, "R12.4")
+    pipe.check_pass_freshness(col, "R12.4", ["ValidateVariableNames", "ComputeTypes"])
     lctx = model.cls(LOWER, "LowerToIRVisitor.Context")
     oef = lctx.own_method("OnEnterFunction")
     cm = [n for n in ast.walk(oef) if isinstance(n, ast.Assign) and isinstance(n.value, ast.Call) and last_attr(n.value) == "ChainMap"]
